@@ -43,13 +43,15 @@ class Pipeline(Instance):
     a sync round every pack_size contigs)."""
     crates = ("ragc-core", "ragc-common")
 
-    def __init__(self, name, threads, samples, k=3, splitters=(), preempt=1, driver="api", view="roundtrip", qcap=1 << 20, zstd="token", sym=(), sym_alpha=(0, 1, 2, 3, 4, 7, 30), edits=(), alts=None, **cfg):
+    def __init__(self, name, threads, samples, k=3, splitters=(), preempt=1, driver="api", view="roundtrip", qcap=1 << 20, zstd="token", sym=(), sym_alpha=(0, 1, 2, 3, 4, 7, 30), edits=(), alts=None, cross=False, **cfg):
         Instance.__init__(self, name)
         self.threads, self.samples, self.k, self.splitters, self.cfg, self.preempt = threads, samples, k, splitters, cfg, preempt
         self.driver, self.view, self.qcap, self.zstd = driver, view, qcap, zstd
         self.sym, self.sym_alpha = tuple(sym), tuple(sym_alpha)      # (sample index, contig index, position): bases that are symbolic over sym_alpha
+        self.cross = cross               # engine-vs-native cross-check of one concrete run (descriptor table + extracted samples)
         self.alts = alts                 # [(samples, splitters)]: the input set itself is an engine choice (one alternative per path)
         self.edits = tuple(edits)        # (kind in subst/del/ins/rc, sample index, contig index): one edit at EVERY position (engine choice) with a symbolic base
+        self.native_profile = "release" if driver == "single" else "dev"      # the dev build panics in single-file mode (known finding F7)
         self.overflow_checks = driver != "single"      # single-file mode relies on wrapping i32 priorities (known finding F7): release semantics there
         self.required_witnesses = ("finalized",)
         self.max_wall = 3000
@@ -251,7 +253,47 @@ class Pipeline(Instance):
                 e.fs, e.sched = saved[1], saved[2]
         return c[key]
 
+    def dump(self, e):
+        """descriptor table + extracted samples of the archive the engine's run wrote (for the engine-vs-native cross-check)"""
+        e.sched = None
+        cfg = e.struct("DecompressorConfig", verbosity=Int(32, 0, 0))
+        h = Cell(e.call_fn(CORE, "Decompressor::open", [e.str_slice(PATH), cfg]).f[0])
+        ev = e.eval_concrete
+        tab = []
+        for t in e.vec_items(e.call_fn(CORE, "Decompressor::get_all_segments", [Ref(h)]).f[0]):
+            tab.append([bytes(ev(x) for x in e.vec_items(t.f[0])).decode(), bytes(ev(x) for x in e.vec_items(t.f[1])).decode(),
+                        [[ev(e.field(d, "SegmentDesc", "group_id")), ev(e.field(d, "SegmentDesc", "in_group_id")), bool(ev(e.field(d, "SegmentDesc", "is_rev_comp"))), ev(e.field(d, "SegmentDesc", "raw_length"))] for d in e.vec_items(t.f[2])]])
+        out = []
+        for n in e.vec_items(e.call_fn(CORE, "Decompressor::list_samples", [Ref(h)])):
+            r = e.call_fn(CORE, "Decompressor::get_sample", [Ref(h), e.as_slice(Ref(Cell(n)))])
+            out.append([bytes(ev(x) for x in e.vec_items(n)).decode(), [[bytes(ev(x) for x in e.vec_items(t.f[0])).decode(), [ev(x) for x in e.vec_items(t.f[1])]] for t in e.vec_items(r.f[0])]])
+        return {"segments": tab, "samples": out}
+
+    def concrete_cases(self, rnd):
+        """one concrete run (first-choice schedule) whose descriptor table and extracted samples are compared with a native run of the
+        same real code: validates the interpreter and every std / codec / thread model the pipeline touches"""
+        if self.view == "fault" or not self.cross:
+            return []
+        c = {"__concrete__": 1}
+        if self.alts:
+            c["alt"] = rnd.randrange(len(self.alts))
+        return [c]
+
+    def compare(self, s, n):
+        return s.get("segments") == n.get("segments") and s.get("samples") == n.get("samples")
+
     def path(self, e):
+        if e.concrete is not None:
+            self.sym_backup = (self.sym, self.edits)
+            try:
+                self.sym, self.edits = (), ()          # the cross-check runs the unedited input of the chosen alternative
+                r = self.run_pipeline(e, sched=False)
+            finally:
+                self.sym, self.edits = self.sym_backup
+            if r.variant != 0:
+                return {"error": "finalize failed"}
+            e.sched.shutdown()
+            return self.dump(e)
         if self.view == "determinism":
             return self.path_determinism(e)
         if self.view == "fault":
@@ -316,7 +358,9 @@ class Pipeline(Instance):
         return f"pipe:panic:{ex.where.split('::')[-1]}:{ex.kind}", str(ex)
 
     def confirm(self, viol, outs):
-        for o in outs.values():
+        for prof, o in outs.items():
+            if self.driver == "single" and prof == "dev":
+                continue                # the dev build always panics in single-file mode (known finding F7): it cannot confirm anything else
             if "panic" in o or "crash" in o:
                 return True
             if o.get("timeout") and self.threads > 1 and str(o.get("why", "")).startswith("1 worker"):
@@ -332,14 +376,12 @@ class Pipeline(Instance):
                 "samples": [[sn.decode(), [[cn.decode(), list(d)] for cn, d in cs]] for sn, cs in samples0], "runs": {"determinism": 12, "fault": 0}.get(self.view, 2), "indep": self.view == "format", "watchdog_s": 90}
         if inp.get("samples"):
             case["samples"] = inp["samples"]
+        if inp.get("__concrete__"):
+            return "pipeline_dump", case
         if self.view == "fault":
             f = min(inp.get("phi", 0) / max(inp.get("N", 1), 1), 0.999)
             case["fault_fractions"] = sorted({round(x, 4) for x in (f, max(f - 0.02, 0.0), min(f + 0.02, 0.999), 0.0, 0.25, 0.5, 0.75, 0.9, 0.97)})
         return "pipeline", case
-
-    def concrete_cases(self, rnd):
-        return []
-
 
 C1 = [0, 1, 2, 3, 0, 0, 1, 2, 2, 3, 1, 3, 3, 0, 2, 1, 1]
 C2 = [0, 1, 2, 3, 0, 0, 1, 2, 0, 3, 1, 3, 3, 0, 2, 1, 1]
